@@ -80,6 +80,40 @@ let check id what model obs =
   else Printf.printf "MISMATCH %s %s model=%s\n" id what
       (if S.length model > 600 then S.sub model 0 600 ^ "..." else model)
 
+let fragment_case id sch (protf : coq_N list -> ssp list res) key iv cb sb samples before trafc obs =
+  let key = bytes_of_hex key in
+  let iv = pad_iv (bytes_of_hex iv) in
+  let samples = samples_of samples in
+  let encs =
+    if sch = "cenc" then encrypt_samples_cenc e protf key iv samples
+    else encrypt_samples_cbcs e d protf key iv (n_of_int (int_of_string cb)) (n_of_int (int_of_string sb)) samples in
+  let model =
+    match encs with
+    | Ok l ->
+      let data = hexlist (L.map (fun x -> x.e_data) l) in
+      let saiz_s = res_string (fun z -> Printf.sprintf "%s/%d/%d" (hex_of_bytes z.sz_info)
+                                  (int_of_n z.sz_default) (int_of_n z.sz_count)) (saiz_of saiz_empty l) in
+      let (state_s, ivs, sss, senc_s) =
+        match senc_of senc_empty l with
+        | Ok s ->
+          (Printf.sprintf "%d/%d/%d" (int_of_n s.sn_count) (int_of_n s.sn_ivsize) (if s.sn_subs then 1 else 0),
+           hexlist s.sn_ivs,
+           (match s.sn_ss with [] -> "-" | _ -> S.concat ";" (L.map string_of_ranges s.sn_ss)),
+           res_string (fun es ->
+               let tot = L.fold_left (fun a x -> a + L.length x) 16 es in
+               Printf.sprintf "%d/%s" tot (hex_of_bytes (L.concat es)))
+             (senc_entries s Datatypes.O (nat_of_int (int_of_n s.sn_count))))
+        | _ -> ("senc-add-failed", "", "", "") in
+      let bef = L.map n_of_int (ints_of_csv before) in
+      let tc = L.map (fun x -> match split_on ':' x with
+          | ["s"; z] -> (true, n_of_int (int_of_string z))
+          | [_; z] -> (false, n_of_int (int_of_string z))
+          | _ -> failwith "bad traf child") (if trafc = "-" then [] else split_on ',' trafc) in
+      let saio = int_of_n (saio_offset bef tc) in
+      S.concat "|" ["ok"; state_s; ivs; sss; saiz_s; senc_s; string_of_int saio; data]
+    | Err -> "err" | Panic -> "panic" | OutOfFuel -> "outoffuel" in
+  check id "fragment" model obs
+
 let () =
   iter_lines (fun line ->
       match split_on '\t' line with
@@ -118,36 +152,14 @@ let () =
         let protf =
           if codec = "u" then audio_protect_ranges
           else protect_ranges (isvideo_of codec) (mk_hdr hdrs) (scheme_of sch) in
-        let key = bytes_of_hex key in
-        let iv = pad_iv (bytes_of_hex iv) in
-        let samples = samples_of samples in
-        let encs =
-          if sch = "cenc" then encrypt_samples_cenc e protf key iv samples
-          else encrypt_samples_cbcs e d protf key iv (n_of_int (int_of_string cb)) (n_of_int (int_of_string sb)) samples in
-        let model =
-          match encs with
-          | Ok l ->
-            let data = hexlist (L.map (fun x -> x.e_data) l) in
-            let saiz_s = res_string (fun z -> Printf.sprintf "%s/%d/%d" (hex_of_bytes z.sz_info)
-                                        (int_of_n z.sz_default) (int_of_n z.sz_count)) (saiz_of saiz_empty l) in
-            let (state_s, ivs, sss, senc_s) =
-              match senc_of senc_empty l with
-              | Ok s ->
-                (Printf.sprintf "%d/%d/%d" (int_of_n s.sn_count) (int_of_n s.sn_ivsize) (if s.sn_subs then 1 else 0),
-                 hexlist s.sn_ivs,
-                 (match s.sn_ss with [] -> "-" | _ -> S.concat ";" (L.map string_of_ranges s.sn_ss)),
-                 res_string (fun es ->
-                     let tot = L.fold_left (fun a x -> a + L.length x) 16 es in
-                     Printf.sprintf "%d/%s" tot (hex_of_bytes (L.concat es)))
-                   (senc_entries s Datatypes.O (nat_of_int (int_of_n s.sn_count))))
-              | _ -> ("senc-add-failed", "", "", "") in
-            let bef = L.map n_of_int (ints_of_csv before) in
-            let tc = L.map (fun x -> match split_on ':' x with
-                | ["s"; z] -> (true, n_of_int (int_of_string z))
-                | [_; z] -> (false, n_of_int (int_of_string z))
-                | _ -> failwith "bad traf child") (if trafc = "-" then [] else split_on ',' trafc) in
-            let saio = int_of_n (saio_offset bef tc) in
-            S.concat "|" ["ok"; state_s; ivs; sss; saiz_s; senc_s; string_of_int saio; data]
-          | Err -> "err" | Panic -> "panic" | OutOfFuel -> "outoffuel" in
-        check id "fragment" model obs
+        fragment_case id sch protf key iv cb sb samples before trafc obs
+      | ["G"; id; sch; codec; spss; ppss; key; iv; cb; sb; samples; before; trafc; obs] ->
+        (* EncryptFragment with getAVCProtFunc / getHEVCProtFunc of the model (maps from the avcC / hvcC NAL units,
+           slice header sizes from the C15 parsers) *)
+        let protf =
+          if codec = "a" then
+            (match C07CodecModel.avc_prot_func (nalus_of spss) (nalus_of ppss) (scheme_of sch) with
+             | Ok f -> f | _ -> (fun _ -> Err))
+          else C07CodecModel.hevc_prot_func (nalus_of spss) (nalus_of ppss) (scheme_of sch) in
+        fragment_case id sch protf key iv cb sb samples before trafc obs
       | _ -> Printf.printf "BADLINE %s\n" (if S.length line > 200 then S.sub line 0 200 else line))
